@@ -140,7 +140,8 @@ def Piece (p : List Nat) : Prop := p ≠ [] ∧ 10 ∉ p.dropLast
 
 Reads and appends are not traced; the acceptor below checks, on the events that are, exactly the conditions the
 completeness theorem needs (`C18.follow_complete_partial`): the follower believes the target free only when it is
-(`unsoundFree`), it stops only after having seen it free (`stopWhileLocked`), and no new instance is created at the log
+(`unsoundFree`), it stops only after having seen it free (`stopWhileLocked`) and at an end-of-file read made after
+that probe (`stopWithoutReread`; hook `log.eof`), and no new instance is created at the log
 name while the follower holds a descriptor on an older one — either because it opened the previous build's instance
 while the builder already held the lock (`staleOpen`, hypothesis `ha` of `C18.follow_complete_one_build_partial`) or
 because the target is built again during the session (`rebuiltDuringFollow`, `createAfterFree`; hypothesis `hb`).
@@ -152,6 +153,7 @@ structure FolSt where
   opened : Option Nat := none        -- inode of the instance the descriptor refers to
   openedUnderLock : Bool := false    -- it was opened while a builder held the lock without having created its instance
   wasLocked : Bool
+  eofSince : Bool := false           -- a read has hit the end of the file since the lock was last probed
   deriving DecidableEq, Repr
 
 structure OSt where
@@ -162,11 +164,12 @@ structure OSt where
 
 inductive OEv
   | lock | create (ino : Nat) | unlock
-  | enter (b : Bool) | opened (ino : Nat) | check (b : Bool) | stop
+  | enter (b : Bool) | opened (ino : Nat) | check (b : Bool) | eof | stop
   deriving DecidableEq, Repr
 
 inductive Flag
   | badOrder | unsoundFree | stopWhileLocked | staleOpen | rebuiltDuringFollow | wrongInstance | createAfterFree
+  | stopWithoutReread
   deriving DecidableEq, Repr
 
 def ostep (s : OSt) : OEv → Except Flag OSt
@@ -201,11 +204,22 @@ def ostep (s : OSt) : OEv → Except Flag OSt
   | .check b =>
     match s.fol with
     | none => .error .badOrder
-    | some f => if !b && s.phase != .idle then .error .unsoundFree else .ok { s with fol := some { f with wasLocked := b } }
-  | .stop =>
+    | some f =>
+      if !b && s.phase != .idle then .error .unsoundFree
+      else .ok { s with fol := some { f with wasLocked := b, eofSince := false } }
+  | .eof =>
     match s.fol with
     | none => .error .badOrder
-    | some f => if f.wasLocked then .error .stopWhileLocked else .ok { s with fol := none }
+    | some f => .ok { s with fol := some { f with eofSince := true } }
+  | .stop =>
+    -- the loop ends at an end-of-file read made AFTER the probe that found the target free: whatever the builder wrote
+    -- before releasing the lock has been read by then (a follower that stops right at the probe can miss the last lines)
+    match s.fol with
+    | none => .error .badOrder
+    | some f =>
+      if f.wasLocked then .error .stopWhileLocked
+      else if !f.eofSince then .error .stopWithoutReread
+      else .ok { s with fol := none }
 
 def orun (s : OSt) : List OEv → Nat → Except (Flag × Nat) OSt
   | [], _ => .ok s
